@@ -1,5 +1,5 @@
 CONSTANTS MCNames = {"authorization", "connection", "via", "x-forwarded-proto", "x-tok", "x-nom"}
-          MCVals = {"", "a", "b", "x-nom"}  MaxLines = 3  MaxAttempts = 2  FirstLineOnly = FALSE
+          MCVals = {"", "a", "x-nom"}  MaxLines = 3  MaxAttempts = 2  FirstLineOnly = FALSE
 SPECIFICATION Spec
 VIEW View
 INVARIANTS TypeOK Inv_C15a Inv_C15b Inv_C15c
